@@ -771,6 +771,8 @@ class Opa:
         if decl in ('std::convert::Into::into', 'std::convert::From::from') and len(argv) == 1 and NONZERO_RE.search(full) \
                 and ('usize as std::convert::From' in full or 'as std::convert::Into<usize>' in full):
             return argv[0], False
+        if strip_generics(res) in ('std::option::Option::inspect', 'std::result::Result::inspect') and len(argv) == 2:
+            return argv[0], False       # the value passes through unchanged (what the closure does is seen where its body is analysed)
         if decl in ('std::convert::Into::into', 'std::convert::From::from') and len(argv) == 1 and BOOL_TO_INT_RE.search(full):
             return argv[0], False       # bool -> integer: false = 0, true = 1, which is how booleans are represented here
         # Option::map_or(opt, default, f) / map_or_else(opt, d, f) with a known closure: `match opt { Some(v) => f(v), None => default }`
